@@ -1,6 +1,7 @@
 package main
 
 import (
+	"encoding/json"
 	"fmt"
 	"go/ast"
 	"go/parser"
@@ -19,6 +20,10 @@ import (
 const modulePath = "github.com/reeflective/readline"
 
 type Engine struct {
+	// localsMeta: for every function under contract, the parameter names and the local variables (name, type,
+	// in declaration order) of the tree the contracts were written against (/verif/contracts/locals.json).
+	// Used only to keep a contract applicable after a parameter or a local was renamed.
+	localsMeta    map[string]*fnLocals
 	finalKeys     map[string]bool
 	repo          string
 	verif         string
@@ -87,11 +92,135 @@ func LoadEngine(repo, verif string) (*Engine, error) {
 	if err := e.cs.LoadAll(repo, verif, filepath.Join(verif, "specs")); err != nil {
 		return nil, err
 	}
+	e.localsMeta = map[string]*fnLocals{}
+	if data, err := os.ReadFile(filepath.Join(verif, "contracts", "locals.json")); err == nil {
+		_ = json.Unmarshal(data, &e.localsMeta)
+	}
 	e.finalKeys = map[string]bool{}
 	for _, fd := range e.cs.Finals {
 		e.finalKeys[fd.Key] = true
 	}
 	return e, nil
+}
+
+type localInfo struct {
+	Name string `json:"name"`
+	Type string `json:"type"`
+}
+
+type fnLocals struct {
+	Params []string    `json:"params"`
+	Locals []localInfo `json:"locals"`
+}
+
+// localsOf lists the named local variables of fn in declaration order (position of the declaring identifier).
+func (e *Engine) localsOf(fn *ssa.Function) *fnLocals {
+	fl := &fnLocals{}
+	for _, p := range fn.Params {
+		fl.Params = append(fl.Params, p.Name())
+	}
+	type lv struct {
+		pos  token.Pos
+		info localInfo
+	}
+	seen := map[types.Object]bool{}
+	var lvs []lv
+	for _, b := range fn.Blocks {
+		for _, ins := range b.Instrs {
+			d, ok := ins.(*ssa.DebugRef)
+			if !ok || d.Object() == nil {
+				continue
+			}
+			v, ok := d.Object().(*types.Var)
+			if !ok || seen[v] || v.IsField() {
+				continue
+			}
+			isParam := false
+			for _, p := range fn.Params {
+				if p.Object() == v {
+					isParam = true
+				}
+			}
+			if isParam {
+				continue
+			}
+			seen[v] = true
+			lvs = append(lvs, lv{v.Pos(), localInfo{v.Name(), typeKey(v.Type())}})
+		}
+	}
+	sort.Slice(lvs, func(i, j int) bool { return lvs[i].pos < lvs[j].pos })
+	for _, l := range lvs {
+		fl.Locals = append(fl.Locals, l.info)
+	}
+	return fl
+}
+
+// renamedLocal: a name the contract uses that the current function no longer has: if the recorded tree had a
+// local of that name as the k-th local of type T, and the current function's k-th local (or its only local of
+// type T with a name the recorded tree did not have) has type T, that local is meant.
+func (e *Engine) renamedLocal(fn *ssa.Function, name string) (string, bool) {
+	meta := e.localsMeta[fn.String()]
+	if meta == nil {
+		return "", false
+	}
+	// a renamed parameter (by position), unless the name still denotes something in the current function
+	if len(meta.Params) == len(fn.Params) {
+		for i, old := range meta.Params {
+			if old == name && fn.Params[i].Name() != name {
+				cur := e.localsOf(fn)
+				for _, l := range cur.Locals {
+					if l.Name == name {
+						return "", false
+					}
+				}
+				for _, p := range fn.Params {
+					if p.Name() == name {
+						return "", false
+					}
+				}
+				return fn.Params[i].Name(), true
+			}
+		}
+	}
+	idx := -1
+	for i, l := range meta.Locals {
+		if l.Name == name {
+			idx = i
+			break
+		}
+	}
+	if idx < 0 {
+		return "", false
+	}
+	cur := e.localsOf(fn)
+	for _, l := range cur.Locals {
+		if l.Name == name {
+			return "", false // still there: the lookup failed for another reason (scope)
+		}
+	}
+	want := meta.Locals[idx].Type
+	if idx < len(cur.Locals) && cur.Locals[idx].Type == want && !metaHas(meta, cur.Locals[idx].Name) {
+		return cur.Locals[idx].Name, true
+	}
+	var cands []string
+	for _, l := range cur.Locals {
+		if l.Type == want && !metaHas(meta, l.Name) {
+			cands = append(cands, l.Name)
+		}
+	}
+	if len(cands) == 1 {
+		return cands[0], true
+	}
+	return "", false
+}
+
+func metaHas(m *fnLocals, name string) bool {
+	for _, l := range m.Locals {
+		if l.Name == name {
+			return true
+		}
+	}
+	return false
 }
 
 // allFuncs: every function of the module (methods, closures, instances), in a stable order.
